@@ -8,7 +8,7 @@ Open Scope N_scope.
    largest array delivered in one event), [chunked_array_usage] (largest sum of the byte counts announced by
    the chunk headers of one array, summed as the validator does, 64-bit wrap-around included),
    [ident_usage] (longest identifier), [marker_usage] (marker events; the validator limits them by
-   MaxLocalReferenceCount - MaxMarkerCount is never read and the model's configuration has no such field).
+   the smaller of MaxLocalReferenceCount and MaxMarkerCount, the model's [max_local_reference_count]).
    [cfg_le a b]: b is at least as generous as a (array limit 0 = none).  [length_ok cfg n]: n is within the
    array-size limit of cfg. *)
 
@@ -24,7 +24,7 @@ Proof. exact accepts_document_mono. Qed.
 Print Assumptions C14_raising_limits_never_rejects_document.
 
 (* (b) Necessity: every accepted event list is within the object, depth, array (whole and chunked) and
-   identifier limits. *)
+   identifier limits (the marker limit: see C14_marker_limit_necessary). *)
 Theorem C14_limits_necessary :
   forall cfg es, accepts cfg es = true ->
     object_usage es <= max_object_count cfg /\ depth_usage es <= max_container_depth cfg /\
@@ -46,9 +46,25 @@ Theorem C14_limits_sufficient_document :
 Proof. exact limits_sufficient_full_document. Qed.
 Print Assumptions C14_limits_sufficient_document.
 
-(* (b) Exactness for the object, depth, identifier and array limits, when the marker limit is not the
-   binding one. *)
-Theorem C14_limits_exact_partial :
+(* (b) Exactness, complete documents: a document is accepted exactly when more generous limits accept it and
+   every one of the six usage measures is within its limit. *)
+Theorem C14_limits_exact :
+  forall cfg es,
+    accepts_document cfg es = true <->
+    (exists cfg', cfg_le cfg cfg' /\ accepts_document cfg' es = true) /\ within_limits_full cfg es.
+Proof. exact limits_exact_document. Qed.
+Print Assumptions C14_limits_exact.
+
+(* Necessity of the marker limit: every marker of a complete document is registered, and registrations are
+   counted against the limit (the smaller of MaxLocalReferenceCount and MaxMarkerCount in the code). *)
+Theorem C14_marker_limit_necessary :
+  forall cfg es, accepts_document cfg es = true -> marker_usage es <= max_local_reference_count cfg.
+Proof. exact document_markers_within. Qed.
+Print Assumptions C14_marker_limit_necessary.
+
+(* (b) Exactness on arbitrary accepted lists (prefixes of documents), where open markers are not yet counted:
+   the five other limits, given that the marker limit is not the binding one. *)
+Theorem C14_limits_exact_prefix :
   forall cfg es, marker_usage es <= max_local_reference_count cfg ->
     (accepts cfg es = true <->
      (exists cfg', cfg_le cfg cfg' /\ accepts cfg' es = true) /\
@@ -56,43 +72,21 @@ Theorem C14_limits_exact_partial :
      length_ok cfg (whole_array_usage es) = true /\ length_ok cfg (chunked_array_usage es) = true /\
      ident_usage es <= max_identifier_length cfg).
 Proof. exact limits_exact_full. Qed.
-Print Assumptions C14_limits_exact_partial.
+Print Assumptions C14_limits_exact_prefix.
 
-(* ... in particular with the object, depth and identifier limits set to exactly the measured usage the list is
-   still accepted (and by necessity, with one of them lower it is not). *)
+(* Off by one: with the object, depth, identifier and marker limits set to exactly the measured usage the
+   document is still accepted (and by necessity, with any of them one lower it is not). *)
 Theorem C14_limits_tight :
-  forall cfg es, accepts cfg es = true -> marker_usage es <= max_local_reference_count cfg ->
-    accepts (usage_cfg cfg es) es = true.
-Proof. exact limits_tight_full. Qed.
+  forall cfg es, accepts_document cfg es = true -> accepts_document (usage_cfg cfg es) es = true.
+Proof. exact limits_tight_document. Qed.
 Print Assumptions C14_limits_tight.
 
-(* The number of registered markers (the quantity compared with the limit) never exceeds the number of
-   marker events. *)
-Theorem C14_registered_markers_bounded :
-  forall cfg es c, state_after cfg es = Some c -> refcount c <= marker_usage es.
-Proof. exact registered_markers_bounded. Qed.
-Print Assumptions C14_registered_markers_bounded.
-
-(* The full statement (all six measures necessary and sufficient), kept for reference: *)
-Definition C14_limits_exact_full : Prop :=
-  forall cfg es,
-    accepts_document cfg es = true <->
-    (exists cfg', cfg_le cfg cfg' /\ accepts_document cfg' es = true) /\
-    object_usage es <= max_object_count cfg /\ depth_usage es <= max_container_depth cfg /\
-    length_ok cfg (whole_array_usage es) = true /\ length_ok cfg (chunked_array_usage es) = true /\
-    ident_usage es <= max_identifier_length cfg /\ marker_usage es <= max_local_reference_count cfg.
-(* The one part that is missing from the proved statements is the necessity of the marker limit, and the
-   current code violates it (a marker on a chunked string in map-key position is never registered): *)
-Theorem C14_marker_limit_necessary_refuted :
-  exists cfg es, accepts_document cfg es = true /\ max_local_reference_count cfg < marker_usage es.
-Proof. exact marker_limit_necessary_refuted. Qed.
-Print Assumptions C14_marker_limit_necessary_refuted.
-Theorem C14_limits_exact_full_refuted : ~ C14_limits_exact_full.
-Proof.
-  intro F. destruct marker_limit_necessary_refuted as [cfg [es [A M]]].
-  destruct (proj1 (F cfg es) A) as [_ [_ [_ [_ [_ [_ X]]]]]]. apply N.lt_nge in M. contradiction.
-Qed.
-Print Assumptions C14_limits_exact_full_refuted.
+(* On every accepted list the registered markers plus the marker entries still open are the marker events. *)
+Theorem C14_markers_accounted :
+  forall cfg es c, state_after cfg es = Some c ->
+    (Z.of_N (refcount c) + Z.of_nat (count_cl KMarker (e_rule (cur c) :: srules c)) = Z.of_N (marker_usage es))%Z.
+Proof. exact markers_accounted. Qed.
+Print Assumptions C14_markers_accounted.
 
 (* Non-vacuity / off-by-one examples on one document: depth 2, 7 objects, identifier length 3, a whole array
    of 4 bytes, a chunked array of 2 + 3 bytes. *)
